@@ -618,6 +618,10 @@ def build_space(tier):
     for combo in itertools.product(bases, repeat=3):
         for k, sizes in enumerate(size_sets_3d):
             cases.append({'kind': 'nd', 'axes': [[b, n, _iv(ivs[b][(k + i) % 2])] for i, (b, n) in enumerate(zip(combo, sizes))]})
+    # twin axes: the same base and the same N on intervals of different length (only the interval tells them apart)
+    for b in bases:
+        cases.append({'kind': 'nd', 'axes': [[b, 4, _iv(ivs[b][0])], [b, 4, _iv(ivs[b][1])]]})
+        cases.append({'kind': 'nd', 'axes': [[b, 3, _iv(ivs[b][1])], [b, 3, _iv(ivs[b][0])], [b, 3, _iv(ivs[b][1])]]})
     return cases
 
 
